@@ -612,6 +612,7 @@ func replaySQLHist(args []string) error {
 	dir := vx.Scratch("replayhist")
 	defer os.RemoveAll(dir)
 	rep := &vx.Report{}
+	unexpectedHangs := 0
 	// the two files differ in content: count(a = v1) is 2 in file 1 and 1 in file 2
 	rowsOf := map[int][]vx.Row{1: {{{2, 1}, {3, 1}}, {{2, 1}}}, 2: {{{2, 1}, {3, 1}}, {{2, 2}}, {{2, 2}, {3, 2}}}}
 	wantOf := map[int]string{1: "2", 2: "1"}
@@ -641,7 +642,13 @@ func replaySQLHist(args []string) error {
 			outcome := "ok"
 			switch st.Op {
 			case "open":
-				db, err := sql.Open("updog", "file:"+paths[st.F]+optOf[st.O])
+				opt := optOf[st.O]
+				if st.O == 1 && st.F == 2 {
+					// the second file's option string carries three options, in another order: every handle on it
+					// must still find the file's shared connection
+					opt = "?lrucachesize=65536&preload=true&lrucache=true"
+				}
+				db, err := sql.Open("updog", "file:"+paths[st.F]+opt)
 				if err != nil {
 					outcome = "err"
 				}
@@ -691,8 +698,15 @@ func replaySQLHist(args []string) error {
 			}
 			if bad != "" {
 				rep.Mismatch(map[string]any{"kind": "sqlhist-" + bad, "steps": ln.Steps[:si+1], "got": outcome})
+				if outcome == "hang" && st.Out != "hang" {
+					unexpectedHangs++
+				}
 				break
 			}
+		}
+		if unexpectedHangs >= 3 {
+			// a stuck call keeps the driver's mutex: every later history would only wait out the watchdog
+			return errStopReplay
 		}
 		for _, db := range dbs {
 			watchdog(2*time.Second, func() error { return db.Close() })
@@ -702,12 +716,14 @@ func replaySQLHist(args []string) error {
 		}
 		return nil
 	})
-	if err != nil {
+	if err != nil && err != errStopReplay {
 		return err
 	}
 	rep.Print()
 	return nil
 }
+
+var errStopReplay = fmt.Errorf("replay stopped after repeated hangs")
 
 // record-sql-conc (C17): concurrent first use of fresh handles by up to 16 goroutines, repeated
 // open / close cycles on two files; events for Trace_SQL.
